@@ -18,6 +18,8 @@ Dirs5 == {<<1, 0, 1>>, <<3, 4, 5>>, <<-12, 5, 13>>, <<0, 1, 1>>, <<-15, -8, 17>>
 BaseD == {<<1, 0, 1>>, <<3, 4, 5>>, <<5, 12, 13>>, <<8, 15, 17>>, <<7, 24, 25>>, <<20, 21, 29>>}
 VariantsOf(d) == {<<a, b, d[3]>> : a \in {d[1], -d[1]}, b \in {d[2], -d[2]}} \cup {<<b, a, d[3]>> : a \in {d[1], -d[1]}, b \in {d[2], -d[2]}}
 DirsAll == UNION {VariantsOf(d) : d \in BaseD}
+(* nearly north-up: the smallest-angle Pythagorean directions with m = 150, n = 1 (0.76 deg from an axis) *)
+DirsNear == {<<22499, 300, 22501>>, <<22499, -300, 22501>>, <<300, 22499, 22501>>, <<-300, 22499, 22501>>, <<-22499, 300, 22501>>, <<300, -22499, 22501>>}
 P1 == {1}
 PBoth == {1, -1}
 S3 == {1, 4, 36}
@@ -37,7 +39,10 @@ RegsC06 == Simple("absent") \cup Simple("F")
            \cup {Comp(op, Circle("absent"), Ell("ellipse", <<3, 4, 5>>, "absent"), inc) : op \in {"and", "or", "xor"}, inc \in {"absent", "F"}}
            \cup {Comp("or", Comp("and", Circle("absent"), CAnn("absent"), "absent"), Ell("rectangle", <<0, 1, 1>>, "absent"), "F")}
            \cup {Comp(op, Circle("F"), Ell("ellipse", <<3, 4, 5>>, "absent"), "absent") : op \in {"and", "or", "xor"}}     \* excluded operand, compound with its own (empty) meta
+EllT(k, d, inc) == Base(k, inc) @@ [w |-> 8, h |-> 20, d |-> d]                 \* taller than wide
+RegsNear == {Ell(k, d, "absent") : k \in {"ellipse", "rectangle"}, d \in {<<1, 0, 1>>, <<0, 1, 1>>}} \cup {EAnn("eannulus", <<1, 0, 1>>, "absent")}
 RegsC07 == {Circle("absent"), CAnn("absent")} \cup {Ell(k, d, "absent") : k \in {"ellipse", "rectangle"}, d \in DirsAll}
+           \cup {EllT(k, d, "absent") : k \in {"ellipse", "rectangle"}, d \in Dirs5}
            \cup {EAnn(k, d, "absent") : k \in {"eannulus", "rannulus"}, d \in Dirs5}
 
 (* round trip is the identity on class, geometry, include flag and visual, for every class incl. compounds *)
